@@ -4,7 +4,7 @@ import Amshan.Model.Hdlc
 /- Per-property part of the GeneratedCode equivalence lemmas (split so that a change to one translated
    function only breaks the proofs of the property that function belongs to). -/
 namespace Amshan.GenLemmas
-open Amshan.GenCode Amshan.Gen
+open Amshan.GenCode Amshan.Gen Amshan.Hdlc
 
 /-! ### HDLC header accessors -/
 
@@ -34,5 +34,153 @@ theorem hdlcFrameLength_eq (f : Hdlc.Frame) : hdlcFrameLength f.data = f.frameLe
 theorem hdlcInformationPosition_eq (f : Hdlc.Frame) : hdlcInformationPosition f.ctlPos = f.infoPos := by
   unfold hdlcInformationPosition Hdlc.Frame.infoPos
   cases f.ctlPos <;> rfl
+
+/-! ### HDLC header: fields at the cached control position (explicit `data`, `ctlPos`; no frame invariant needed) -/
+
+theorem hdlcControl_eq (f : Hdlc.Frame) : hdlcControl f.data f.ctlPos = f.control := by
+  rcases f with ⟨data, crc, cp⟩
+  unfold hdlcControl Hdlc.Frame.control Hdlc.Frame.len
+  cases cp with
+  | none => simp
+  | some p => simp; split <;> simp_all
+
+theorem hdlcHeaderCheckSequence_eq (f : Hdlc.Frame) : hdlcHeaderCheckSequence f.data f.ctlPos = f.hcs := by
+  rcases f with ⟨data, crc, cp⟩
+  unfold hdlcHeaderCheckSequence Hdlc.Frame.hcs Hdlc.Frame.len
+  cases cp with
+  | none => simp
+  | some p =>
+    simp
+    split
+    · rename_i h
+      have h1 : p + 1 < data.length := by omega
+      simp [List.getElem?_eq_getElem h, List.getElem?_eq_getElem h1]
+    · simp
+
+/-! ### HDLC header: addresses.  `_get_address` is a `while True:` loop; the translator emits it as
+    `hdlcGetAddress.loop1` (recursion on fuel, answering `oof` when the fuel is used up). -/
+
+/-- the translated `while True` loop of `_get_address`: for every value `oof` answered when the fuel runs out
+    and every fuel larger than the number of octets left, it is the model's recursion — in particular the fuel
+    never runs out. -/
+theorem hdlcGetAddress_loop_eq (data : List Nat) (position : Nat) (oof : Option (List Nat)) :
+    ∀ (fuel : Nat) (adr : List Nat) (i cur : Nat), i ≤ data.length → data.length < fuel + i →
+      hdlcGetAddress.loop1 data position oof fuel adr i data cur
+        = (Hdlc.getAddressFrom (data.drop i)).map (adr ++ ·) := by
+  intro fuel
+  induction fuel with
+  | zero => intro adr i cur h1 h2; omega
+  | succ n ih =>
+    intro adr i cur h1 h2
+    unfold hdlcGetAddress.loop1
+    by_cases hi : i ≥ data.length
+    · have : data.drop i = [] := List.drop_eq_nil_of_le hi
+      simp [hi, this, Hdlc.getAddressFrom]
+    · have hlt : i < data.length := by omega
+      rw [List.drop_eq_getElem_cons hlt]
+      simp only [Hdlc.getAddressFrom]
+      by_cases hodd : data[i] % 2 = 1
+      · simp [hi, hlt, hodd, Nat.and_one_is_mod]
+      · simp [hi, hlt, hodd, Nat.and_one_is_mod]
+        rw [ih _ _ _ (by omega) (by omega)]
+        simp [Function.comp_def]
+
+theorem hdlcGetAddress_eq (data : List Nat) (position : Nat) :
+    hdlcGetAddress data position = Hdlc.getAddress data position := by
+  unfold hdlcGetAddress Hdlc.getAddress
+  by_cases h : data.length > position
+  · simp [h]
+    rw [hdlcGetAddress_loop_eq _ _ _ _ _ _ _ (by omega) (by omega)]
+    simp
+  · simp [h]
+
+theorem hdlcDestinationAddress_eq (data : List Nat) : hdlcDestinationAddress data = Hdlc.destAddr data := by
+  unfold hdlcDestinationAddress Hdlc.destAddr
+  simp only [hdlcGetAddress_eq]
+  by_cases h : data.length ≥ 2 <;> simp [h]
+
+theorem hdlcSourceAddress_eq (data : List Nat) : hdlcSourceAddress data = Hdlc.srcAddr data := by
+  unfold hdlcSourceAddress Hdlc.srcAddr
+  simp only [hdlcGetAddress_eq, hdlcDestinationAddress_eq]
+  cases Hdlc.destAddr data <;> simp
+
+theorem hdlcGetControlFieldPosition_eq (data : List Nat) :
+    hdlcGetControlFieldPosition data = Hdlc.controlPos data := by
+  unfold hdlcGetControlFieldPosition Hdlc.controlPos
+  simp only [hdlcSourceAddress_eq, hdlcDestinationAddress_eq]
+  cases Hdlc.destAddr data <;> cases Hdlc.srcAddr data <;> simp
+
+/-! ### `HdlcFrameHeader.update()` (the cached `_is_header_good` is not modelled: second component) -/
+
+/-- `HdlcFrameHeader.update()`: the cached control position afterwards is the one `Frame.append` stores. -/
+theorem hdlcHeaderUpdate_fst (data : List Nat) (g : Bool) (cp : Option Nat) (hg : Option Bool) :
+    (hdlcHeaderUpdate data g cp hg).1 =
+      (match cp with
+       | some p => some p
+       | none => if data.length > 3 then Hdlc.controlPos data else none) := by
+  unfold hdlcHeaderUpdate
+  simp only [hdlcGetControlFieldPosition_eq]
+  cases cp with
+  | some p => cases hg <;> simp <;> split <;> simp
+  | none =>
+    by_cases h : data.length > 3
+    · cases hc : Hdlc.controlPos data <;> cases hg <;> simp [h] <;> split <;> simp
+    · simp [h]
+
+theorem hdlcHeaderUpdate_append (f : Hdlc.Frame) (b : Nat) (g : Bool) (hg : Option Bool) :
+    (hdlcHeaderUpdate (f.data ++ [b]) g f.ctlPos hg).1 = (f.append b).ctlPos := by
+  rw [hdlcHeaderUpdate_fst]; rfl
+
+/-! ### HdlcFrame accessors -/
+
+theorem hdlcIsGoodFfc_eq (f : Hdlc.Frame) : hdlcIsGoodFfc (Fcs.isGood f.crc) = f.isGoodFfc := rfl
+
+theorem hdlcIsExpectedLength_eq (f : Hdlc.Frame) : hdlcIsExpectedLength f.data = f.isExpectedLength := by
+  unfold hdlcIsExpectedLength Hdlc.Frame.isExpectedLength Hdlc.Frame.len
+  rw [hdlcFrameLength_eq]; rfl
+
+theorem hdlcFrameCheckSequence_eq (f : Hdlc.Frame) : hdlcFrameCheckSequence f.data f.ctlPos = f.fcsField := by
+  unfold hdlcFrameCheckSequence Hdlc.Frame.fcsField Hdlc.Frame.len
+  rw [hdlcInformationPosition_eq]
+  cases h : f.infoPos with
+  | none => simp
+  | some ip =>
+    have : 3 ≤ ip := by
+      unfold Hdlc.Frame.infoPos at h
+      cases hc : f.ctlPos <;> simp_all
+      omega
+    simp
+    split
+    · rename_i hl
+      have h1 : f.data.length - 1 < f.data.length := by omega
+      have h2 : f.data.length - 2 < f.data.length := by omega
+      simp [List.getElem?_eq_getElem h1, List.getElem?_eq_getElem h2]
+    · simp
+
+/-- The translation computes `len(data) - 2` in `Nat` (truncated); Python would index from the end for a negative
+    value.  Whenever `frame_check_sequence` answers a number the frame has at least 3 octets (the information
+    position is a control position + 3), so no subtraction is truncated. -/
+theorem hdlcFrameCheckSequence_guard (data : List Nat) (cp : Option Nat)
+    (h : (hdlcFrameCheckSequence data cp).isSome) : 3 ≤ data.length := by
+  unfold hdlcFrameCheckSequence hdlcInformationPosition at h
+  cases cp with
+  | none => simp at h
+  | some p =>
+    simp at h
+    split at h
+    · omega
+    · simp at h
+
+theorem hdlcPayload_eq (f : Hdlc.Frame) : hdlcPayload f.data f.ctlPos = f.payload := by
+  unfold hdlcPayload Hdlc.Frame.payload Hdlc.Frame.len sliceNegEnd
+  rw [hdlcInformationPosition_eq]
+  cases f.infoPos with
+  | none => simp
+  | some ip => simp; split <;> simp_all
+
+theorem hdlcIsValid_eq (f : Hdlc.Frame) : hdlcIsValid f.isGoodFfc f.data = f.isValid := by
+  unfold hdlcIsValid Hdlc.Frame.isValid
+  rw [hdlcIsExpectedLength_eq]
+  cases f.isGoodFfc <;> cases f.isExpectedLength <;> rfl
 
 end Amshan.GenLemmas
